@@ -572,8 +572,41 @@ def r8_responsibility_weighted_averages(ctx):
                  forbidden=[r"/ \([^()]*\+", r"finfo", r"\beps\b", r"clamp", r"1e-\d", r"\.max\(", r"maximum\("], construct=f"weighted average in {name}")
 
 
+def r9_every_parameter_updated(ctx):
+    """'each model parameter becomes the closed-form maximiser': the batched update computes a new value for *every* model parameter of the
+    graph and assigns every computed value - no parameter is skipped under a condition (one that declares no statistic of its own, like the
+    mixture probabilities, would keep its initial value for the whole fit)."""
+    from ..astq import Canon
+    import re as _re
+    ctx.rule("C04.R9", "update_parameters computes and assigns an update for every model parameter (no conditional skip in either loop)", 2)
+    f = ctx.ix.func("leaspy.models.mcmc_saem_compatible", "McmcSaemCompatibleModel.update_parameters", "C04.R9")
+    ctx.analysed(f)
+    cfg = CFG(f.node)
+    cn = Canon(f.node)
+    cn.lines(False, True)
+    comp = [n for n, st in cfg.stmt.items() if isinstance(st, ast.Assign) and isinstance(st.targets[0], ast.Subscript) and isinstance(st.value, ast.Call)
+            and isinstance(st.value.func, ast.Attribute) and st.value.func.attr == "compute_update"]
+    put = [n for n, st in cfg.stmt.items() if isinstance(st, ast.Assign) and isinstance(st.targets[0], ast.Subscript) and U(st.targets[0].value) in ("state", "self.state")]
+    if len(comp) != 1 or len(put) != 1:
+        ctx.unknown("C04.R9", f, f.node, f"{len(comp)} computation(s) / {len(put)} assignment(s) of the updates found (1 / 1 confirmed)", construct="every parameter updated")
+        return
+    for n, what in ((comp[0], "computed"), (put[0], "assigned")):
+        gs = [(cfg.stmt[h], lab) for h, lab in cfg.if_guards(n)]
+        loops = [cfg.stmt[h] for h, lab in cfg.guards(n) if cfg.kind[h] == "loop" and any(x is cfg.stmt[n] for x in ast.walk(cfg.stmt[h]))]
+        skips = [st for st in statements(f.node) if isinstance(st, (ast.Continue, ast.Break)) and any(st in list(ast.walk(lp)) for lp in loops)]
+        ok = not gs and not skips
+        why = (f"{'only when' if gs[0][1] else 'unless'} `{U(gs[0][0].test)[:70]}`" if gs else (f"unless a `{type(skips[0]).__name__.lower()}` is taken first" if skips else ""))
+        ctx.check(ok, "C04.R9", f, cfg.stmt[n], f"the update of every model parameter is {what} unconditionally",
+                  f"the update of a model parameter is {what} {why}: a parameter for which the condition fails (e.g. one that declares no sufficient statistic, like the mixture "
+                  "probabilities) keeps its previous value instead of becoming the closed-form maximiser", construct=f"update {what} for every parameter")
+    it = [U(cfg.stmt[h].iter) for h, lab in cfg.guards(comp[0]) if cfg.kind[h] == "loop" and isinstance(cfg.stmt[h], ast.For)]
+    ctx.check(it == ["state.dag.sorted_variables_by_type[ModelParameter].items()"], "C04.R9", f, cfg.stmt[comp[0]], "the loop ranges over every ModelParameter of the graph",
+              f"the updates are computed over `{it}`, not over every ModelParameter of the graph", construct="range of the update loop")
+
+
 def rules(ctx):
     r8_responsibility_weighted_averages(ctx)
+    r9_every_parameter_updated(ctx)
     r7_responsibilities_agree(ctx)
     r1_two_phase(ctx)
     r2_tables(ctx)
